@@ -8,9 +8,15 @@ import (
 // C20 (directory half): listing and hashing a directory is independent of map
 // iteration order and of the order in which files were written.
 
-func verifDirOutput(order []int) string {
+// verifDirNames: the second set has files that share a version (the prefix before
+// the first underscore), as up/down pairs and same-timestamp files do.
+var verifDirNameSets = [][]string{
+	{"1_a.sql", "2_b.sql", "3_c.sql", "notes.txt"},
+	{"1_b.up.sql", "1_b.down.sql", "1_a.sql", "1.sql"},
+}
+
+func verifDirOutput(names []string, order []int) string {
 	d := &MemDir{}
-	names := []string{"1_a.sql", "2_b.sql", "3_c.sql", "notes.txt"}
 	for _, i := range order {
 		if err := d.WriteFile(names[i], []byte(fmt.Sprintf("S%d;\n", i))); err != nil {
 			panic(err)
@@ -37,14 +43,15 @@ func verifDirOutput(order []int) string {
 }
 
 func VerifHarness_C20_dir() {
+	names := verifDirNameSets[verifChoice("names", len(verifDirNameSets))]
 	verifMapOrder(false)
-	ref := verifDirOutput([]int{0, 1, 2, 3})
-	sumRef := verifSumTokens([]int{0, 1, 2, 3})
+	ref := verifDirOutput(names, []int{0, 1, 2, 3})
+	sumRef := verifSumTokens(names, []int{0, 1, 2, 3})
 	// any write order x any map iteration order
 	perm := [][]int{{0, 1, 2, 3}, {3, 2, 1, 0}, {1, 3, 0, 2}, {2, 0, 3, 1}}[verifChoice("write-order", 4)]
 	verifMapOrder(true)
-	got := verifDirOutput(perm)
-	sumGot := verifSumTokens(perm)
+	got := verifDirOutput(names, perm)
+	sumGot := verifSumTokens(names, perm)
 	verifMapOrder(false)
 	verifReach("compared")
 	verifObserve("listing", got)
@@ -52,9 +59,8 @@ func VerifHarness_C20_dir() {
 	verifAssert(sumGot == sumRef, "the marshalled sum file is identical for every iteration / write order")
 }
 
-func verifSumTokens(order []int) string {
+func verifSumTokens(names []string, order []int) string {
 	d := &MemDir{}
-	names := []string{"1_a.sql", "2_b.sql", "3_c.sql", "notes.txt"}
 	for _, i := range order {
 		d.WriteFile(names[i], []byte(fmt.Sprintf("S%d;\n", i)))
 	}
